@@ -109,6 +109,10 @@ Definition dec_instr (v : val) : option instr :=
   | VTup [VInt 15; src; VBool wr; VInt a; VInt m] => option_map (fun s => ISample s wr a m) (dec_nat src)
   | VTup [VInt 16; src; _; cols] =>
       match dec_nat src, dec_exprs cols with Some s, Some c => Some (IRepartition s c) | _, _ => None end
+  | VTup [VInt 17; VBool m; own; ns; VList data; VInt flavor] =>
+      match dec_names own, dec_names ns, omap dec_vals data with
+      | Some o, Some n, Some d => Some (ICreateRows (negb (Z.eqb (flavor mod 4) 2)) m o n d)
+      | _, _, _ => None end
   | _ => None
   end.
 
